@@ -542,4 +542,305 @@ theorem monitor_nothing_after_close (p : Proto) (pre post : List Ev) (o : Out) (
       obtain ⟨hc, he⟩ := step_close_frame p m1 m2 o ho h2
       exact monitor_closed_silent p post m2 m' hc he h
 
+/-! the monitor invariant `stopped ∩ live = ∅` and "complete at most once" for every accepted trace -/
+
+set_option linter.unusedVariables false in
+theorem mem_rm (x id : Nat) (l : List Nat) : x ∈ rm id l ↔ x ∈ l ∧ x ≠ id := by
+  simp [rm]
+
+/-- monitor invariant: an id is never both live and stopped -/
+def Disj (m : M) : Prop := ∀ x, x ∈ m.live → x ∉ m.stopped
+
+/-- nothing is known about `id`: neither live nor awaiting its `complete` -/
+def Absent (id : Nat) (m : M) : Prop := id ∉ m.live ∧ id ∉ m.stopped
+
+theorem disj_init : Disj {} := by simp [Disj]
+
+theorem accept_disj (m : M) (msg : CMsg) (h : Disj m) : Disj (accept m msg) := by
+  cases msg <;> simp only [accept] <;> (try exact h)
+  · rename_i id
+    split
+    · rename_i hc
+      intro x hx
+      simp only [List.mem_cons, mem_rm] at hx
+      rcases hx with rfl | ⟨hx, _⟩
+      · exact h _ (by simpa using hc)
+      · exact h _ hx
+    · rename_i hc
+      intro x hx
+      simp only [List.mem_cons, mem_rm] at hx ⊢
+      rcases hx with rfl | hx
+      · simp
+      · intro hh; exact h _ hx hh.1
+  · rename_i id
+    split
+    · intro x hx
+      simp only [List.mem_cons, mem_rm] at hx ⊢
+      intro hh
+      rcases hh with rfl | hh
+      · exact hx.2 rfl
+      · exact h _ hx.1 hh
+    · exact h
+
+theorem emit_disj (p : Proto) (m m' : M) (o : Out) (h : Disj m) (he : emit p m o = some m') : Disj m' := by
+  cases o <;> simp only [emit] at he <;> (try split at he) <;> (try split at he) <;>
+    simp at he <;> (try subst he) <;> (try exact h)
+  · intro x hx; simp only [mem_rm] at hx; exact h _ hx.1
+  · intro x hx; simp only [mem_rm]; intro hh; exact h _ hx hh.1
+
+theorem step_disj (p : Proto) (m m' : M) (ev : Ev) (h : Disj m) (hs : step p m ev = some m') : Disj m' := by
+  unfold step at hs
+  cases he : m.expect with
+  | some x =>
+    simp only [he] at hs
+    cases ev with
+    | recv msg => simp at hs
+    | out o => simp only at hs; split at hs <;> simp at hs; subst hs; exact h
+  | none =>
+    simp only [he] at hs
+    cases hc : m.closed with
+    | true =>
+      simp only [hc, if_true] at hs
+      split at hs <;> simp at hs <;> (subst hs; exact h)
+    | false =>
+      simp only [hc, Bool.false_eq_true, if_false] at hs
+      cases ev with
+      | recv msg =>
+        simp only at hs
+        split at hs <;> simp at hs <;> subst hs
+        · exact h
+        · exact accept_disj m msg h
+      | out o => exact emit_disj p m m' o h hs
+
+theorem steps_disj (p : Proto) (tr : List Ev) (m m' : M) (h : Disj m) (hs : steps p m tr = some m') : Disj m' := by
+  induction tr generalizing m with
+  | nil => simp [steps] at hs; subst hs; exact h
+  | cons ev r ih =>
+    simp only [steps] at hs
+    cases h1 : step p m ev with
+    | none => simp [h1] at hs
+    | some m1 => simp only [h1] at hs; exact ih m1 (step_disj p m m1 ev h h1) hs
+
+/-- what every step leaves alone: a step other than `recv (start id)` cannot make `id` known -/
+theorem step_absent (p : Proto) (id : Nat) (m m' : M) (ev : Ev) (h : Absent id m)
+    (hne : ev ≠ .recv (.start id)) (hs : step p m ev = some m') : Absent id m' := by
+  unfold step at hs
+  cases he : m.expect with
+  | some x =>
+    simp only [he] at hs
+    cases ev with
+    | recv msg => simp at hs
+    | out o => simp only at hs; split at hs <;> simp at hs; subst hs; exact h
+  | none =>
+    simp only [he] at hs
+    cases hc : m.closed with
+    | true =>
+      simp only [hc, if_true] at hs
+      split at hs <;> simp at hs <;> (subst hs; exact h)
+    | false =>
+      simp only [hc, Bool.false_eq_true, if_false] at hs
+      cases ev with
+      | recv msg =>
+        simp only at hs
+        split at hs <;> simp at hs <;> subst hs
+        · exact h
+        · obtain ⟨h1, h2⟩ := h
+          cases msg <;> simp only [accept] <;> (try exact ⟨h1, h2⟩)
+          · rename_i id' _
+            have hid : id ≠ id' := by intro hh; subst hh; exact hne rfl
+            split
+            · exact ⟨by simp [mem_rm, hid, h1], h2⟩
+            · exact ⟨by simp [hid, h1], by simp [mem_rm, h2]⟩
+          · rename_i id' _
+            split
+            · rename_i hc'
+              have hid : id ≠ id' := by intro hh; subst hh; exact h1 (by simpa using hc')
+              exact ⟨by simp [mem_rm, h1], by simp [hid, h2]⟩
+            · exact ⟨h1, h2⟩
+      | out o =>
+        simp only at hs
+        obtain ⟨h1, h2⟩ := h
+        cases o <;> simp only [emit] at hs <;> (try split at hs) <;> (try split at hs) <;>
+          simp at hs <;> (try subst hs) <;> (try exact ⟨h1, h2⟩)
+        · exact ⟨by simp [mem_rm, h1], h2⟩
+        · exact ⟨h1, by simp [mem_rm, h2]⟩
+
+theorem steps_absent (p : Proto) (id : Nat) (tr : List Ev) (m m' : M) (h : Absent id m)
+    (hne : .recv (.start id) ∉ tr) (hs : steps p m tr = some m') : Absent id m' := by
+  induction tr generalizing m with
+  | nil => simp [steps] at hs; subst hs; exact h
+  | cons ev r ih =>
+    simp only [steps] at hs
+    simp only [List.mem_cons, not_or] at hne
+    cases h1 : step p m ev with
+    | none => simp [h1] at hs
+    | some m1 =>
+      simp only [h1] at hs
+      exact ih m1 (step_absent p id m m1 ev h (fun hh => hne.1 hh.symm) h1) hne.2 hs
+
+/-- after an accepted `complete id` the id is neither live nor stopped (needs the invariant) -/
+theorem step_complete_absent (p : Proto) (id : Nat) (m m' : M) (hd : Disj m)
+    (hs : step p m (.out (.complete id)) = some m') : Absent id m' := by
+  unfold step at hs
+  cases he : m.expect with
+  | some x => cases x <;> simp [he, Expect.admits] at hs
+  | none =>
+    simp only [he] at hs
+    cases hc : m.closed with
+    | true => simp [hc] at hs
+    | false =>
+      simp only [hc, Bool.false_eq_true, if_false, emit] at hs
+      split at hs
+      · rename_i hl
+        simp at hs; subst hs
+        exact ⟨by simp [mem_rm], hd _ (by simpa using hl)⟩
+      · rename_i hl
+        split at hs <;> simp at hs
+        subst hs
+        exact ⟨by simpa using hl, by simp [mem_rm]⟩
+
+/-- a message about `id` (`next`/`data`/`complete`) is not accepted while `id` is absent -/
+theorem step_about_needs (p : Proto) (id : Nat) (m m' : M) (o : Out) (h : Absent id m)
+    (ho : o = .complete id ∨ (∃ i v, o = .next id i v) ∨ (∃ i v, o = .data id i v))
+    (hs : step p m (.out o) = some m') : False := by
+  obtain ⟨h1, h2⟩ := h
+  unfold step at hs
+  cases he : m.expect with
+  | some x =>
+    rcases ho with rfl | ⟨i, v, rfl⟩ | ⟨i, v, rfl⟩ <;> cases x <;> simp [he, Expect.admits] at hs
+  | none =>
+    simp only [he] at hs
+    cases hc : m.closed with
+    | true => rcases ho with rfl | ⟨i, v, rfl⟩ | ⟨i, v, rfl⟩ <;> simp [hc] at hs
+    | false =>
+      rcases ho with rfl | ⟨i, v, rfl⟩ | ⟨i, v, rfl⟩ <;> simp [hc, emit, h1, h2] at hs
+
+/-- THE trace-only statement, from any monitor state satisfying the invariant -/
+theorem monitor_complete_once (p : Proto) (pre mid : List Ev) (id : Nat) (o : Out) (m m' : M)
+    (hd : Disj m)
+    (h : steps p m (pre ++ .out (.complete id) :: mid ++ [.out o]) = some m')
+    (ho : o = .complete id ∨ (∃ i v, o = .next id i v) ∨ (∃ i v, o = .data id i v)) :
+    .recv (.start id) ∈ mid := by
+  rw [List.append_assoc, steps_append] at h
+  cases h1 : steps p m pre with
+  | none => simp [h1] at h
+  | some m1 =>
+    simp only [h1, Option.bind_some, List.cons_append, steps] at h
+    cases h2 : step p m1 (.out (.complete id)) with
+    | none => simp [h2] at h
+    | some m2 =>
+      simp only [h2] at h
+      rw [steps_append] at h
+      cases h3 : steps p m2 mid with
+      | none => simp [h3] at h
+      | some m3 =>
+        simp only [h3, Option.bind_some, steps] at h
+        cases h4 : step p m3 (.out o) with
+        | none => simp [h4] at h
+        | some m4 =>
+          refine Classical.byContradiction fun hne => ?_
+          have ha := step_complete_absent p id m1 m2 (steps_disj p pre m m1 hd h1) h2
+          exact step_about_needs p id m3 m4 o (steps_absent p id mid m2 m3 ha hne h3) ho h4
+
+/-! the message loop never returns `next`/`data`; where the ids of the stream map come from -/
+
+/-- the return value of a loop iteration is never `next`/`data` -/
+theorem handle_ret_not_item (D : Defects) (s s' : State) (m : CMsg) (o : Out) (id inst val : Nat)
+    (ho : o = .next id inst val ∨ o = .data id inst val) (h : handle D s m = .ret s' o) : False := by
+  cases m with
+  | eof => rcases ho with rfl | rfl <;> simp [handle] at h
+  | bad => rcases ho with rfl | rfl <;> simp [handle] at h
+  | init =>
+    cases h1 : s.onInit <;> cases h2 : s.proto <;> rcases ho with rfl | rfl <;>
+      simp [handle, rearm, refuse, h1, h2] at h
+  | start i =>
+    cases h1 : s.acked <;> cases h2 : (s.proto == .new && !D.dupIdReplaces && hasId i s.streams) <;>
+    cases h3 : (s.proto == .new && !D.preAck1011) <;> rcases ho with rfl | rfl <;>
+      simp [handle, rearm, h1, h2, h3] at h
+  | stop i =>
+    cases h1 : hasId i s.streams <;> rcases ho with rfl | rfl <;> simp [handle, rearm, h1] at h
+  | term => rcases ho with rfl | rfl <;> simp [handle] at h
+  | ping => simp [handle] at h
+  | pong => simp [handle] at h
+
+theorem loop_ret_not_item (D : Defects) (ib : List CMsg) (s s' : State) (rest taken : List CMsg) (o : Out)
+    (id inst val : Nat) (ho : o = .next id inst val ∨ o = .data id inst val)
+    (h : loop D s ib = (s', rest, taken, some o)) : False := by
+  induction ib generalizing s taken with
+  | nil => simp [loop] at h
+  | cons m r ih =>
+    simp only [loop] at h
+    cases hh : handle D s m with
+    | ret s1 o1 =>
+      simp only [hh, Prod.mk.injEq, Option.some.injEq] at h
+      obtain ⟨_, _, _, rfl⟩ := h
+      exact handle_ret_not_item D s s1 m o1 id inst val ho hh
+    | brk s1 => simp [hh] at h
+    | cont s1 =>
+      simp only [hh] at h
+      rcases hl : loop D s1 r with ⟨s2, r2, t2, o2⟩
+      simp only [hl, Prod.mk.injEq] at h
+      obtain ⟨rfl, rfl, _, rfl⟩ := h
+      exact ih s1 t2 hl
+
+theorem hasId_dropId_of (id id' : Nat) (ss : List (Nat × Nat)) (h : hasId id (dropId id' ss) = true) :
+    hasId id ss = true := by
+  simp only [hasId, dropId, List.any_eq_true, List.mem_filter] at h ⊢
+  obtain ⟨x, ⟨hx, _⟩, hx2⟩ := h
+  exact ⟨x, hx, hx2⟩
+
+/-- an id in the stream map after one loop iteration was there before or was started by it -/
+theorem handle_streams (D : Defects) (s : State) (m : CMsg) (id : Nat) (s' : State)
+    (h : handle D s m = .cont s' ∨ handle D s m = .brk s') (hi : hasId id s'.streams = true) :
+    hasId id s.streams = true ∨ m = .start id := by
+  cases m with
+  | eof => simp [handle] at h
+  | bad => simp [handle] at h
+  | init =>
+    cases h1 : s.onInit <;> simp [handle, rearm, h1] at h
+    subst h; exact .inl hi
+  | start i =>
+    cases h1 : s.acked <;> cases h2 : (s.proto == .new && !D.dupIdReplaces && hasId i s.streams) <;>
+      simp [handle, rearm, h1, h2] at h
+    subst h
+    by_cases hid : i = id
+    · exact .inr (by rw [hid])
+    · left
+      simp only [hasId, List.any_cons] at hi
+      have : (i == id) = false := by simpa using hid
+      simp only [this, Bool.false_or] at hi
+      exact hasId_dropId_of id i _ hi
+  | stop i =>
+    cases h1 : hasId i s.streams <;> simp [handle, rearm, h1] at h
+    subst h; exact .inl hi
+  | term => simp [handle] at h
+  | ping => simp [handle, rearm] at h; subst h; exact .inl hi
+  | pong => simp [handle, rearm] at h; subst h; exact .inl hi
+
+theorem loop_streams (D : Defects) (ib : List CMsg) (s s' : State) (rest taken : List CMsg) (id : Nat)
+    (h : loop D s ib = (s', rest, taken, none)) (hi : hasId id s'.streams = true) :
+    hasId id s.streams = true ∨ .start id ∈ taken := by
+  induction ib generalizing s taken with
+  | nil => simp [loop] at h; obtain ⟨rfl, _, _⟩ := h; exact .inl hi
+  | cons m r ih =>
+    simp only [loop] at h
+    cases hh : handle D s m with
+    | ret s1 o1 => simp [hh] at h
+    | brk s1 =>
+      simp only [hh, Prod.mk.injEq] at h
+      obtain ⟨rfl, _, rfl, _⟩ := h
+      rcases handle_streams D s m id s1 (.inr hh) hi with h1 | h1
+      · exact .inl h1
+      · exact .inr (by simp [h1])
+    | cont s1 =>
+      simp only [hh] at h
+      rcases hl : loop D s1 r with ⟨s2, r2, t2, o2⟩
+      simp only [hl, Prod.mk.injEq] at h
+      obtain ⟨rfl, rfl, rfl, rfl⟩ := h
+      rcases ih s1 t2 hl with h1 | h1
+      · rcases handle_streams D s m id s1 (.inl hh) h1 with h2 | h2
+        · exact .inl h2
+        · exact .inr (by simp [h2])
+      · exact .inr (by simp [h1])
+
 end AGV.Lemmas.Ws
